@@ -72,11 +72,13 @@ impl TokenType {
 impl Display for TokenType {
     fn fmt(&self, f: &mut std::fmt::Formatter) -> std::fmt::Result {
         match self {
-            TokenType::Label(s) => writeln!(f, "LABEL({s})"),
+            TokenType::Label(s) => write!(f, "LABEL({s})"),
             TokenType::Symbol(s) => write!(f, "SYMBOL({s})"),
             TokenType::Directive(s) => write!(f, "DIRECTIVE({s})"),
-            TokenType::String(s) => write!(f, "STRING({s})"),
-            TokenType::Char(c) => write!(f, "CHAR({c})"),
+            // These end up in one-line messages: control characters of the
+            // decoded text are shown escaped
+            TokenType::String(s) => write!(f, "STRING({})", s.escape_debug()),
+            TokenType::Char(c) => write!(f, "CHAR({})", c.escape_debug()),
             TokenType::Comment(s) => write!(f, "COMMENT{s}"),
             TokenType::Newline => write!(f, "NEWLINE"),
             TokenType::LParen => write!(f, "LPAREN"),
